@@ -12,8 +12,8 @@ import AutomataVerif.Model.Freeze
 import AutomataVerif.Generated.Slots
 import AutomataVerif.Generated.ValidateLits
 
-namespace AV.Obj
-open AV
+namespace AV.VA.Obj
+open AV AV.VA
 
 def table (t : List (String × List String)) (cls : String) : List String := (alookup cls t).getD []
 
@@ -130,4 +130,4 @@ def pickleRoundTrip (allowMutable : Bool) (o : Inst) : Res Inst :=
   | .error e => .error e
   | .ok d => setstate allowMutable o.cls d
 
-end AV.Obj
+end AV.VA.Obj
